@@ -45,28 +45,25 @@ Proof. exact (close_one_effects e sid oid ob). Qed.
 Print Assumptions C07_close_by_kind.
 
 (* Subscribers.  One atomic section delivers at most one element/terminal signal to a subscriber, none once its
-   receiving side is closed, and a terminal signal closes it — for every label except a PAYLOAD that reaches a channel
-   whose receiving direction is already closed ([late]: a peer that sends after its own terminal frame, or elements in
-   flight after the local cancel; the latter is finding KF-C09-channel-cancel-inflight) *)
-Theorem C07_step_signals u e l oid : Inv e -> late e l oid = false ->
+   receiving side is closed (stream gone, or a channel's receive direction marked complete: by the peer's terminal frame,
+   by the local cancel, or because no subscriber was given), and a terminal signal closes it — for EVERY label *)
+Theorem C07_step_signals u e l oid : Inv e ->
   (length (dsigs oid (snd (ep_step u e l))) <= opn e oid)%nat /\
   (tcount oid (snd (ep_step u e l)) + opn (fst (ep_step u e l)) oid <= opn e oid)%nat.
 Proof. exact (step_sigs u e l oid). Qed.
 Print Assumptions C07_step_signals.
 
-(* over every such history: at most one terminal signal (completion, error, or an element flagged complete) and
-   nothing after it, whatever the order of local actions and wherever the connection is lost *)
-Theorem C07_terminal_at_most_once first ls oid : no_late (ep_init first) ls oid ->
+(* hence over EVERY history — any peer behaviour, any order of local actions, the connection lost anywhere: at most
+   one terminal signal (completion, error, or an element flagged complete) and nothing after it *)
+Theorem C07_terminal_at_most_once first ls oid :
   ok_sigs (dsigs oid (concat (snd (ep_run (ep_init first) ls)))).
 Proof. exact (subscriber_terminal_at_most_once first ls oid). Qed.
 Print Assumptions C07_terminal_at_most_once.
 
-(* for request-stream requesters (every object that is not a channel) the premise is vacuous: at most one terminal
-   signal and nothing after it over EVERY history from any reachable state *)
-Theorem C07_stream_terminal_at_most_once : forall ls e oid o, Inv e -> nth_error (objs e) oid = Some o ->
-  is_chan (o_kind o) = false -> ok_sigs (dsigs oid (concat (snd (ep_run e ls)))).
-Proof. exact rs_terminal_at_most_once. Qed.
-Print Assumptions C07_stream_terminal_at_most_once.
+(* ... from any reachable state *)
+Theorem C07_terminal_at_most_once_from : forall ls e oid, Inv e -> ok_sigs (dsigs oid (concat (snd (ep_run e ls)))).
+Proof. exact run_sigs_ok. Qed.
+Print Assumptions C07_terminal_at_most_once_from.
 
 (* on_subscribe comes first: over EVERY history the first signal a subscriber is ever given is on_subscribe *)
 Theorem C07_on_subscribe_first : forall first ls oid,
@@ -85,6 +82,6 @@ Theorem C07_example :
   let ls := [(LReqChannel [] [x01] true, true); (LSubscribe 0 true [] [x01], true);
              (LRecv (FPayload 1 false false false true [] [x02]) ONone, true);
              (LRecv (FPayload 1 false false true false [] []) ONone, true); (LClose, true)] in
-  no_late (ep_init 1) ls 0 /\ dsigs 0 (concat (snd (ep_run (ep_init 1) ls))) = [SNext [] [x02] false; SComplete].
+  dsigs 0 (concat (snd (ep_run (ep_init 1) ls))) = [SNext [] [x02] false; SComplete].
 Proof. exact sigs_example2. Qed.
 Print Assumptions C07_example.
